@@ -352,6 +352,13 @@ def main(ctx, prop):
             failing += fl
             breaks += bl
             extra['asa_group_scripts_order_checked'] = ng
+            # Linux routes: Linux/Model.v diff_routes against linux.diffRoutes on nested destinations, address coverage after every command
+            from vlib import linuxroutes
+            nl, fl, bl, nt = linuxroutes.check(ctx, 150 if q == 0 else 4000)
+            failing += fl
+            breaks += bl
+            extra['linux_route_cases'] = nl
+            extra['linux_route_scripts_nonempty'] = nt
         if prop == 'C10':
             extra['resumed_prefix_states'] = sum(len(c.get('resume', [])) for c in allcases)
             # NSX and PAN-OS: every cut of the request / command sequence, on the strict models of C04 / C03
